@@ -70,7 +70,7 @@ func c03(c *Check) {
 		callExpr = fa0(c, cs)
 	}
 	writes := c.Calls(ms, m.X("dyn:{CC}#1"))
-	c.Req(len(writes) == 1, "C03/cache-discipline", "one write() site", ms.Pos(), "", fmt.Sprintf("%d write() sites", len(writes)))
+	c.Req(len(writes) >= 1, "C03/cache-discipline", "write() site(s)", ms.Pos(), fmt.Sprintf("%d write() site(s), each checked below", len(writes)), "no write() site: the callback's effects are never kept")
 	for _, w := range writes {
 		c.notReachableFromEdge(ms, "C03/cache-discipline", "write()", m, "("+callExpr+"#1 != nil)", w.Ins)
 	}
@@ -224,7 +224,17 @@ func evmHookRule(c *Check, rule string) {
 				}
 			}
 		}
-		c.Req(marked, rule, "hook error marks response failed", evm.Pos(), "res.VmError set under PostTxProcessing != nil", "no store to res.VmError on the PostTxProcessing error edge: a failing hook would be swallowed")
+		// …unless the hook-error edge rejects outright (returns the error without consulting res.Failed())
+		direct := false
+		for _, i := range efa.ifs {
+			ce := efa.X.E(i.Cond).String()
+			if ce == "("+post+" != nil)" && efa.rejOnly[i.Block().Succs[0].Index] {
+				direct = true
+			} else if ce == "("+post+" == nil)" && efa.rejOnly[i.Block().Succs[1].Index] {
+				direct = true
+			}
+		}
+		c.Req(marked || direct, rule, "hook error marks response failed", evm.Pos(), "res.VmError set under PostTxProcessing != nil, or the error edge rejects directly", "no store to res.VmError on the PostTxProcessing error edge (and the edge does not reject by itself): a failing hook would be swallowed")
 		// …and the failure test must be evaluated AFTER the hook ran: from the hook-error edge no success return may be
 		// reachable without passing through a branch on res.Failed()
 		for _, i := range efa.ifs {
